@@ -227,6 +227,9 @@ def run(idx, rep, tier):
                             "(a zero right-hand-side column is returned as nan instead of exactly 0)"), detail="" if not tiny else "overflow", locs=[idx.loc(f.module, n)])
     if not n_recip:
         rep.note("finite-reciprocal: no reciprocal of a guarded denominator on this tree")
+    # ---- the monitored loop runner only observes: it must not add stopping criteria of its own
+    for f_, ok_, text_, node_ in lp.runner_transparency(idx):
+        rep.decide(ok_, "runner-transparency", "while_loop_winfo", text_, detail="" if ok_ else "extra-exit", locs=[idx.loc(f_.module, node_)])
     rep.floor("loop-cap", 1)
     rep.floor("stopping-test", 2)
     rep.floor("scale-homogeneity", 3)
